@@ -115,6 +115,11 @@ def initial_for(ftype, token, palette=None):
     if token in (NONE, None):
         return None
     palette = palette or {}
+    if token == 'j':                     # a second, different initial value
+        if ftype in ('Char', 'Text'):
+            return 'other'
+        if ftype in ('Int', 'BigInt', 'PosInt', 'FK', 'O2O', 'Decimal'):
+            return 8
     if ftype in ('Char', 'Text'):
         return palette.get('str', 'init')
     if ftype in ('Int', 'BigInt', 'PosInt', 'FK', 'O2O'):
@@ -278,6 +283,12 @@ def index_cond(attrs, names):
 # ---------------------------------------------------------------------------
 # projection: real -> abstract
 
+def _init_token(initial):
+    if initial is None:
+        return NONE
+    return 'j' if initial in (8, 'other') and initial is not True else 'i'
+
+
 def project_mutation(m, names):
     """Real mutation object -> abstract record (same keys as Optimizer!Blank)."""
     from django_evolution.mutations import (AddField, ChangeField, ChangeMeta,
@@ -306,12 +317,12 @@ def project_mutation(m, names):
     if isinstance(m, AddField):
         rec.update(k='Add', m=rm(m.model_name), f=rf(m.field_name),
                    ftype=ftype_of(m.field_type), attrs=rattrs(m.field_attrs),
-                   init=NONE if m.initial is None else 'i')
+                   init=_init_token(m.initial))
     elif isinstance(m, ChangeField):
         rec.update(k='Chg', m=rm(m.model_name), f=rf(m.field_name),
                    ftype=NONE if m.field_type is None else ftype_of(m.field_type),
                    attrs=rattrs(m.field_attrs),
-                   init=NONE if m.initial is None else 'i')
+                   init=_init_token(m.initial))
     elif isinstance(m, DeleteField):
         rec.update(k='Del', m=rm(m.model_name), f=rf(m.field_name))
     elif isinstance(m, RenameField):
